@@ -49,48 +49,80 @@ func c03Scenarios(tier string) []*hist.Scenario {
 		})
 	}
 	never := [2]int64{hist.Big, hist.Big}
+	// Smallest shapes first (histories in normal form before no-effect pruning,
+	// `vcheck countshape`): N2K2Y3 0.25k (pair of kinds 0.84k), N1L1K2Y2 0.4k,
+	// N2K2Y4 0.7k (pair 2.4k), N1L1K2Y3 1.5k (pair 5.0k), N3K3Y4 3.9k, N2K3Y4 pair
+	// 12.6k, N2K3Y6 16k. Every history runs twice (GC on / GC off twin).
+	// client GC: a peer can sync twice (minVV advance) while the other holds unsent edits
+	for _, f := range core {
+		for _, al := range pairs(f.ops) {
+			add(f.name, f.init, al, 2, 0, 2, 3, never)
+		}
+	}
+	// server GC before snapshots
+	for _, f := range core {
+		for _, op := range f.ops {
+			add(f.name, f.init, []string{op}, 1, 1, 2, 2, [2]int64{1, 1})
+		}
+	}
+	// deeper sync budget on single kinds
+	for _, f := range core {
+		for _, op := range f.ops {
+			add(f.name, f.init, []string{op}, 2, 0, 2, 4, never)
+		}
+	}
 	if tier == "quick" {
-		// client GC: a peer can sync twice (minVV advance) while the other holds unsent edits
-		for _, f := range core {
-			for _, al := range pairs(f.ops) {
-				add(f.name, f.init, al, 2, 0, 2, 3, never)
-			}
-		}
-		// deeper sync budget on single kinds
-		for _, f := range fams {
-			for _, op := range f.ops {
-				add(f.name, f.init, []string{op}, 2, 0, 2, 4, never)
-			}
-		}
-		// server GC before snapshots
-		for _, f := range core {
-			for _, op := range f.ops {
-				add(f.name, f.init, []string{op}, 1, 1, 2, 3, [2]int64{1, 1})
-			}
-		}
 		return out
 	}
+	inCore := map[string]bool{}
+	for _, f := range core {
+		for _, op := range f.ops {
+			inCore[op] = true
+		}
+	}
 	for _, f := range fams {
-		for _, al := range pairs(f.ops) {
-			add(f.name, f.init, al, 2, 0, 2, 5, never)
-		}
-	}
-	for _, f := range core {
-		for _, al := range pairs(f.ops) {
-			add(f.name, f.init, al, 2, 0, 3, 5, never)
-		}
-	}
-	for _, f := range core {
-		for _, al := range pairs(f.ops) {
-			for _, ti := range [][2]int64{{1, 1}, {2, 2}} {
-				add(f.name, f.init, al, 1, 1, 3, 4, ti)
+		for _, op := range f.ops {
+			if !inCore[op] {
+				add(f.name, f.init, []string{op}, 2, 0, 2, 4, never)
 			}
 		}
 	}
 	for _, f := range core {
 		for _, op := range f.ops {
+			for _, ti := range [][2]int64{{1, 1}, {2, 2}} {
+				add(f.name, f.init, []string{op}, 1, 1, 2, 3, ti)
+			}
+		}
+	}
+	for _, f := range fams {
+		for _, al := range pairs(f.ops) {
+			if len(al) == 2 && !(inCore[al[0]] && inCore[al[1]]) {
+				add(f.name, f.init, al, 2, 0, 2, 3, never)
+			}
+		}
+	}
+	for _, f := range core {
+		for _, op := range f.ops {
+			add(f.name, f.init, []string{op}, 3, 0, 3, 4, never)
+		}
+	}
+	for _, f := range core {
+		for _, al := range pairs(f.ops) {
+			if len(al) == 2 {
+				add(f.name, f.init, al, 2, 0, 2, 4, never)
+			}
+		}
+	}
+	for _, f := range core {
+		for _, al := range pairs(f.ops[:4]) {
+			if len(al) == 2 {
+				add(f.name, f.init, al, 1, 1, 2, 3, [2]int64{1, 1})
+			}
+		}
+	}
+	for _, f := range core {
+		for _, op := range f.ops[:4] {
 			add(f.name, f.init, []string{op}, 2, 0, 3, 6, never)
-			add(f.name, f.init, []string{op}, 3, 0, 3, 5, never)
 		}
 	}
 	return out
@@ -173,6 +205,6 @@ func init() {
 			"(document.WithDisableGC on every replica + SnapshotDisableGC); oracle: no sync/rebuild error in either world, replicas converge, " +
 			"content(GC on)==content(GC off); non-trivial = two concurrent edits by different clients",
 		Assume:      []string{"memdb backend", "small-scope bounds as listed per scenario name", "map iteration order uncontrolled; violations re-run 5x"},
-		QuickBudget: 170 * time.Second,
+		QuickBudget: 300 * time.Second,
 	})
 }
